@@ -119,10 +119,17 @@ def window_model(eng, sc, on_open, on_close):
             deliver(v)
 
     elif kind == "when":
+        armed = [0]
+
         def arm():
-            holder = {}
+            holder = {"fired": False}
+            sid = sc["pool"][armed[0] % len(sc["pool"])]
+            armed[0] += 1
 
             def ch(k, v):
+                if holder["fired"]:
+                    return  # only the closing observable's first notification counts
+                holder["fired"] = True
                 if k == "E":
                     terminal("E", v)
                     return
@@ -132,10 +139,11 @@ def window_model(eng, sc, on_open, on_close):
                     close_win(st["open"][0])
                     open_win()
                     arm()
-            holder["s"] = eng.subscribe(sc["pool"][0], ch)
+            holder["s"] = eng.subscribe(sid, ch)
+            if holder["fired"]:
+                holder["s"].cancel()  # it fired inside its own subscribe()
 
         open_win()
-        arm()
 
         def on_next(v):
             deliver(v)
@@ -165,6 +173,8 @@ def window_model(eng, sc, on_open, on_close):
 
     # subscription order as in the operators: source first for count/time; boundaries/openings after the source
     tm.single(eng, sid, on_next, lambda e: terminal("E", e), lambda: terminal("C"))
+    if kind == "when" and not eng.done:
+        arm()  # the first closing observable is subscribed after the source
     if kind == "boundaries" and not eng.done:
         eng.subscribe(sc["boundaries"], bh)
     if kind == "toggle" and not eng.done:
@@ -205,12 +215,19 @@ class Prop:
             sc["pool"] = [ctx.new_source("cold", prefix="p", maxn=1, positive_first=True)]
             if not ctx.sources[-1]["events"]:
                 ctx.sources[-1]["events"] = [[40, "C"]]
+            if rng.random() < 0.3:
+                # every other closing observable fires inside its own subscribe() (a BehaviorSubject-like closing): the window it
+                # guards closes at once, the next one is guarded by the ordinary, later closing
+                sc["when_sync"] = True
+                sid = "p%d" % len(ctx.sources)
+                ctx.sources.append({"id": sid, "kind": "sync", "events": rng.choice([[[0, "N", 1]], [[0, "C"]], [[0, "N", 1], [0, "C"]]])})
+                sc["pool"] = [sid, sc["pool"][0]] if rng.random() < 0.5 else [sc["pool"][0], sid]
         else:
             sc["openings"] = ctx.new_source(rng.choice(["cold", "hot"]), prefix="p", maxn=4, positive_first=True)
             sc["pool"] = [ctx.new_source("cold", prefix="p", maxn=1, positive_first=True) for _ in range(2)]
         sc["sources"] = ctx.sources
         off = rng.choice([None, None, None, 37, 123, 411])
-        if off and kind not in ("boundaries", "toggle"):
+        if off and kind not in ("boundaries", "toggle") and not sc.get("when_sync"):
             sc["sub2_t"] = 205 + off
         return sc
 
@@ -226,7 +243,12 @@ class Prop:
         if k == "boundaries":
             return s.pipe((ops.buffer if buf else ops.window)(w.sources[sc["boundaries"]]))
         if k == "when":
-            return s.pipe((ops.buffer_when if buf else ops.window_when)(lambda: w.sources[sc["pool"][0]]))
+            calls = [0]
+
+            def closing():
+                calls[0] += 1
+                return w.sources[sc["pool"][(calls[0] - 1) % len(sc["pool"])]]
+            return s.pipe((ops.buffer_when if buf else ops.window_when)(closing))
         pick = pick_fn(sc)
         return s.pipe((ops.buffer_toggle if buf else ops.window_toggle)(w.sources[sc["openings"]], lambda v: w.sources[pick(v)]))
 
